@@ -584,7 +584,9 @@ func pathVariableSpellingsCase() reqCase {
 	req := func(name string) *spec.Message {
 		return &spec.Message{Name: name, Fields: []*spec.Field{spec.F("user_id", 1, spec.String), spec.F("post_id", 2, spec.Int64), spec.F("slug", 3, spec.String), spec.F("note", 4, spec.String)}}
 	}
-	f.Messages = []*spec.Message{req("ByProto"), req("ByJSON"), req("ByCase"), req("ByNone"), req("ByMixed"), {Name: "PVResp", Fields: []*spec.Field{spec.F("ok", 1, spec.Bool)}}}
+	f.Messages = []*spec.Message{req("ByProto"), req("ByJSON"), req("ByCase"), req("ByNone"), req("ByMixed"),
+		{Name: "ByOptional", Fields: []*spec.Field{spec.F("doc_id", 1, spec.String).Opt(), spec.F("revision", 2, spec.Int32).Opt()}},
+		{Name: "PVResp", Fields: []*spec.Field{spec.F("ok", 1, spec.Bool)}}}
 	in := func(m string) string { return "." + pkg + "." + m }
 	f.Services = []*spec.Service{{Name: "PathVarService", BasePath: spec.S("/api/v1"), Methods: []*spec.Method{
 		{Name: "ByProto", In: in("ByProto"), Out: in("PVResp"), HTTP: &spec.HTTP{Path: "/a/{user_id}/posts/{post_id}", Verb: 2}},
@@ -593,6 +595,9 @@ func pathVariableSpellingsCase() reqCase {
 		{Name: "ByCase", In: in("ByCase"), Out: in("PVResp"), HTTP: &spec.HTTP{Path: "/c/{USER_ID}/{Slug}", Verb: 2}},
 		{Name: "ByNone", In: in("ByNone"), Out: in("PVResp"), HTTP: &spec.HTTP{Path: "/d/{user-id}/{nope}", Verb: 2}},
 		{Name: "ByMixed", In: in("ByMixed"), Out: in("PVResp"), HTTP: &spec.HTTP{Path: "/e/{user_id}/{postId}/{slug}", Verb: 2}},
+		// path variables bound to proto3 optional fields (and a query parameter on one): a path parameter is required
+		{Name: "ByOptional", In: in("ByOptional"), Out: in("PVResp"), HTTP: &spec.HTTP{Path: "/f/{doc_id}/revisions/{revision}", Verb: 1}},
+		{Name: "PutByOptional", In: in("ByOptional"), Out: in("PVResp"), HTTP: &spec.HTTP{Path: "/f/{doc_id}/revisions/{revision}", Verb: 3}},
 	}}}
 	return reqCase{ID: "path-variable-spellings", Files: []*spec.File{f}}
 }
